@@ -181,6 +181,9 @@ def auto_discharge(prog, fn, v, op, a, b):
                     return 'minuend bounded below by a dominating comparison'
             if g == 'not_empty' and sa.kind == 'call' and sa.callee_name() == 'len' and c == 1 and same_val(strip_ref(sa.args[0]), strip_ref(x)):
                 return 'len() - 1 under !is_empty()'
+            # x > y for unsigned y means x >= 1
+            if c == 1 and y is not None and not (v.ty or '').startswith(('i', '(i')) and ((g == 'Gt' and same_val(x, sa)) or (g == 'Lt' and same_val(y, sa))):
+                return 'minuend is greater than an unsigned value on every path, hence >= 1'
     if op == 'Add' and sb.kind == 'const' and sb.args[0] == 1:
         # counter += 1 : bounded by the number of iterations / elements
         if sa.kind == 'phi':
